@@ -824,17 +824,16 @@ func (f *fragment) unprotectedSetRow(row *Row, rowID uint64) (changed bool, err 
 		f.storage.Containers.Remove(headContainerKey + i)
 	}
 
-	// From the given row, get the rowSegment for this shard.
-	seg := row.segment(f.shard)
-	if seg == nil {
-		return changed, nil
-	}
-
-	// Put each container from rowSegment to fragment storage.
-	citer, _ := seg.data.Containers.Iterator(f.shard << shardVsContainerExponent)
-	for citer.Next() {
-		k, c := citer.Value()
-		f.storage.Containers.Put(headContainerKey+(k%(1<<shardVsContainerExponent)), c)
+	// From the given row, get the rowSegment for this shard. Without a
+	// segment the row simply becomes empty; the caches below must still be
+	// refreshed.
+	if seg := row.segment(f.shard); seg != nil {
+		// Put each container from rowSegment to fragment storage.
+		citer, _ := seg.data.Containers.Iterator(f.shard << shardVsContainerExponent)
+		for citer.Next() {
+			k, c := citer.Value()
+			f.storage.Containers.Put(headContainerKey+(k%(1<<shardVsContainerExponent)), c)
+		}
 	}
 
 	// Update the row in cache.
